@@ -16,7 +16,7 @@ typedef struct S_struct_gdstk__OasisStream TokStream;
 static void tok_put(uint8_t kind, uint64_t a, uint64_t b) { __CPROVER_assert(tok_n < TOK_MAX, "token stream capacity"); if (tok_n < TOK_MAX) { TOK[tok_n].kind = kind; TOK[tok_n].a = a; TOK[tok_n].b = b; tok_n++; } }
 static struct oas_tok tok_get(TokStream* s, uint8_t kind) {
   struct oas_tok t = {0, 0, 0};
-  if (tok_k >= tok_n) { if (s->f7 == 0) s->f7 = 6 /* InputFileError: read past the end */; return t; }
+  if (tok_k >= tok_n) { if (s->f7 == 0) s->f7 = 12 /* InputFileError: read past the end */; return t; }
   t = TOK[tok_k++];
   if (t.kind != kind) { tok_kind_error = 1; __CPROVER_assert(0, "token kind: reader and writer disagree on the grammar at this position"); }
   return t;
@@ -36,5 +36,19 @@ uint64_t _ZN5gdstk18oasis_read_integerERNS_11OasisStreamE(TokStream* s) { return
 void _ZN5gdstk17oasis_read_2deltaERNS_11OasisStreamERlS2_(TokStream* s, uint64_t* x, uint64_t* y) { struct oas_tok t = tok_get(s, K_2D); *x = t.a; *y = t.b; }
 void _ZN5gdstk17oasis_read_3deltaERNS_11OasisStreamERlS2_(TokStream* s, uint64_t* x, uint64_t* y) { struct oas_tok t = tok_get(s, K_3D); *x = t.a; *y = t.b; }
 void _ZN5gdstk17oasis_read_gdeltaERNS_11OasisStreamERlS2_(TokStream* s, uint64_t* x, uint64_t* y) { struct oas_tok t = tok_get(s, K_GD); *x = t.a; *y = t.b; }
+#ifdef OASTOK_STRINGS_AND_REALS
+/* strings: a K_UINT length followed by that many K_BYTE tokens; reals: one K_REAL token carrying the double's bits
+   (the byte-level real codec is C19: oas_real_roundtrip / oas_real_forms_vs_reference) */
+uint8_t* _ZN5gdstk17oasis_read_stringERNS_11OasisStreamEbRm(TokStream* s, uint8_t append_null, uint64_t* len) {
+  uint64_t n = tok_get(s, K_UINT).a; uint8_t* b;
+  if (append_null & 1) b = malloc(n + 1); else if (n > 0) b = malloc(n); else { *len = 0; return 0; }
+  for (uint64_t i = 0; i < n; i++) b[i] = (uint8_t)tok_get(s, K_BYTE).a;
+  if (append_null & 1) b[n++] = 0;
+  *len = n; return b;
+}
+double _ZN5gdstk15oasis_read_realERNS_11OasisStreamE(TokStream* s) { return bc_i64_f(tok_get(s, K_REAL).a); }
+double _ZN5gdstk23oasis_read_real_by_typeERNS_11OasisStreamENS_13OasisDataTypeE(TokStream* s, uint8_t type) { return bc_i64_f(tok_get(s, K_REAL).a); }
+void _ZN5gdstk16oasis_write_realERNS_11OasisStreamEd(TokStream* s, double v) { tok_put(K_REAL, bc_f_i64(v), 0); }
+#endif
 #endif
 #endif
